@@ -55,6 +55,9 @@ pub enum Sym {
     Wait(WaitLen),
     SetOffline,
     SetOnline,
+    /// while the station is offline (the only time the documentation allows it) the user changes the list
+    /// of applications: live list + scanner through poll_multi() <-> the live list alone through poll()
+    SwitchApps,
 }
 
 impl Sym {
@@ -67,6 +70,7 @@ impl Sym {
             Sym::Wait(w) => format!("Wait[{:?}]", w),
             Sym::SetOffline => "set_offline".into(),
             Sym::SetOnline => "set_online".into(),
+            Sym::SwitchApps => "switch_apps".into(),
         }
     }
     pub fn to_json(&self) -> Value {
@@ -78,6 +82,7 @@ impl Sym {
             Sym::Wait(w) => json!({"wait": format!("{:?}", w)}),
             Sym::SetOffline => json!("set_offline"),
             Sym::SetOnline => json!("set_online"),
+            Sym::SwitchApps => json!("switch_apps"),
         }
     }
     pub fn from_json(v: &Value) -> Sym {
@@ -91,7 +96,7 @@ impl Sym {
             o => panic!("bad frame in replay: {o:?}"),
         };
         if let Some(s) = v.as_str() {
-            return if s == "set_offline" { Sym::SetOffline } else { Sym::SetOnline };
+            return if s == "set_offline" { Sym::SetOffline } else if s == "switch_apps" { Sym::SwitchApps } else { Sym::SetOnline };
         }
         if let Some(t) = v["tel"].as_str() {
             return Sym::Tel(frame(t), gap(v));
@@ -711,6 +716,18 @@ impl W2State {
                 }
                 self.c11 = C11Mon::default();
                 self.c12r = C12RMon::default();
+                true
+            }
+            Sym::SwitchApps => {
+                if self.station.connectivity_state().is_online() {
+                    return false;
+                }
+                let old = std::mem::replace(&mut self.apps, Apps::Unit);
+                self.apps = match old {
+                    Apps::Both(l, _s) => Apps::Live(l),
+                    Apps::Live(l) => Apps::Both(l, profirust::dp::scan::DpScanner::new()),
+                    o => o,
+                };
                 true
             }
             Sym::SetOnline => {
